@@ -113,7 +113,7 @@ def _norm(o):
     return o
 
 
-def states(tier, seed):
+def _states_base(tier, seed):
     out = []
     for (fns, nf), tkey, flavour in itertools.product(FNS, TARGETS, ["legacy", "modern"]):
         proj = {"name": "neutrino", "dict": "positron", "proton": "electron"}[tkey]
@@ -156,6 +156,26 @@ def _check_output(st, out, t0n, o0n, o):
                 probs.append(f"{name}: result kinematics ({r.x},{r.Q2}) do not follow the requested order {k}")
                 break
     return probs
+
+
+def states(tier, seed):
+    """quick = the full base lattice; thorough = base lattice + the deep extension."""
+    base = _states_base("thorough", seed)
+    if tier == "quick":
+        return base
+    seen = {digest(s) for s in base}
+    return base + [s for s in _states_deep(seed) if digest(s) not in seen]
+
+
+def _states_deep(seed):
+    out = []
+    for (fns, nf), tkey, flavour in itertools.product([("ZM-VFNS", 3), ("FONLL-FFNS", 4)], ["name", "dict"], ["legacy", "modern"]):
+        proj = {"name": "neutrino", "dict": "positron", "proton": "electron"}[tkey]
+        for seq in itertools.product(OPS, repeat=4):
+            if sum(1 for s in seq if s in ("result", "run")) > 2:
+                continue
+            out.append({"fns": fns, "nfff": nf, "target": tkey, "flavour": flavour, "projectile": proj, "seq": list(seq)})
+    return out
 
 
 def execute(st):
